@@ -223,3 +223,122 @@ Proof. unfold unbound. induction endo as [|a l IH]; simpl; [lia|]. destruct (neg
 Lemma pass3_never_errs ics endo vars tzc e :
   pass3 (S (List.length endo)) ics endo vars tzc <> Err e.
 Proof. apply pass3_fuel. pose proof (unbound_bound endo tzc). lia. Qed.
+
+(* ------------------------------------------------------------------ the whole of init *)
+Lemma varlist_In p x :
+  In x (varlist p) <-> In x (endo_names p ++ lag_names p ++ exo_names p ++ deco_names p).
+Proof. unfold varlist. apply sort_In. Qed.
+
+Lemma init_passes_err p e : init_passes p = Err e -> e = ValueError.
+Proof.
+  unfold init_passes. intros H.
+  destruct (pass1 (p_ics p) (varlist p) [] []) as [[v1 z1]|e1] eqn:E1;
+    [|inversion H; subst; eapply pass1_err; eauto].
+  destruct (pass2 (p_maxtime p) (exo_with_k p v1) v1 z1) as [[v2 z2]|e2] eqn:E2;
+    [|inversion H; subst; eapply pass2_err; eauto].
+  destruct (pass3 (S (List.length (p_endo p))) (p_ics p) (p_endo p) v2 z2) as [[v3 z3]|e3] eqn:E3;
+    [|exfalso; eapply pass3_never_errs; eauto].
+  destruct (pass4 (S (List.length (p_deco p))) (p_deco p) v3 z3) as [[v4 z4]|e4] eqn:E4;
+    [discriminate|exfalso; eapply pass3_never_errs; eauto].
+Qed.
+
+Lemma init_err p e : init p = Err e -> e = ValueError.
+Proof.
+  unfold init. destruct (init_passes p) as [[ts exo']|e'] eqn:E.
+  - destruct (all_finite_ts ts); intros H; inversion H; reflexivity.
+  - intros H; inversion H; subst. eapply init_passes_err; eauto.
+Qed.
+
+Record init_facts (p : pstate) (ts0 : tseries) (exo' : list (string * exo_spec)) : Prop := {
+  if_exo : (In "k" (varlist p) /\ exo' = p_exo p) \/
+           (~ In "k" (varlist p) /\ exo' = p_exo p ++ [("k", ExoList (kseries (p_maxtime p)))]);
+  if_exo_len : forall x, In x (map fst exo') ->
+                 exists l, lookup x ts0 = Some l /\ List.length l = S (p_maxtime p);
+  if_exo_val : NoDup (map fst exo') -> forall x s, In (x, s) exo' ->
+                 exists val, exo_values (p_maxtime p) s = Ok val /\ S (p_maxtime p) <= List.length val /\
+                             lookup x ts0 = Some (firstn (S (p_maxtime p)) val);
+  if_exo_good : forall x s, In (x, s) exo' ->
+                 exists val, exo_values (p_maxtime p) s = Ok val /\ S (p_maxtime p) <= List.length val;
+  if_ic_good : forall x, In x (varlist p) -> lookup x (p_ics p) <> Some ICBad;
+  if_other : forall x, In x (varlist p) -> ~ In x (map fst exo') ->
+                 exists v, lookup x ts0 = Some [v] /\
+                           (forall c, lookup x (p_ics p) = Some (ICVal c) -> v = c)
+}.
+
+Lemma init_passes_facts p ts0 exo' : init_passes p = Ok (ts0, exo') -> init_facts p ts0 exo'.
+Proof.
+  unfold init_passes. intros H.
+  destruct (pass1 (p_ics p) (varlist p) [] []) as [[v1 z1]|e1] eqn:E1; [|discriminate].
+  destruct (pass2 (p_maxtime p) (exo_with_k p v1) v1 z1) as [[v2 z2]|e2] eqn:E2; [|discriminate].
+  destruct (pass3 (S (List.length (p_endo p))) (p_ics p) (p_endo p) v2 z2) as [[v3 z3]|e3] eqn:E3; [|discriminate].
+  destruct (pass4 (S (List.length (p_deco p))) (p_deco p) v3 z3) as [[v4 z4]|e4] eqn:E4; [|discriminate].
+  inversion H; subst ts0 exo'. clear H.
+  destruct (pass1_spec _ _ _ _ _ _ E1) as [P1a P1b].
+  destruct (pass3_spec _ _ _ _ _ _ _ E3) as [P3a P3b].
+  unfold pass4 in E4. destruct (pass3_spec _ _ _ _ _ _ _ E4) as [P4a P4b].
+  assert (Hk : has "k" v1 = true <-> In "k" (varlist p)).
+  { split; intros Hh.
+    - destruct (in_dec string_dec "k" (varlist p)) as [Hi|Hni]; [exact Hi|].
+      destruct (P1b _ Hni) as [Hl _]. simpl in Hl. apply has_true_iff in Hh. destruct Hh as [l Hl']. congruence.
+    - specialize (P1a _ Hh). apply has_true_iff.
+      destruct (lookup "k" (p_ics p)) as [[c|]|]; [destruct P1a; eauto|tauto|destruct P1a; eauto]. }
+  (* exogenous names keep their series through passes 3 and 4 *)
+  assert (Hexo : forall x, In x (map fst (exo_with_k p v1)) -> lookup x v4 = lookup x v2).
+  { intros x Hin. destruct (pass2_lengths _ _ _ _ _ _ E2 x Hin) as [Hh _].
+    assert (Hh3 : has x z3 = true) by (apply has_true_iff; rewrite (P3a x Hh); now apply has_true_iff).
+    destruct (P4b x) as [->|[Hf _]]; [|congruence].
+    destruct (P3b x) as [->|[Hf _]]; [reflexivity|congruence]. }
+  constructor.
+  - unfold exo_with_k. destruct (has "k" v1) eqn:Eh.
+    + left. split; [now apply Hk|reflexivity].
+    + right. split; [|reflexivity]. intros Hin. apply Hk in Hin. congruence.
+  - intros x Hin. rewrite (Hexo x Hin). exact (proj2 (pass2_lengths _ _ _ _ _ _ E2 x Hin)).
+  - intros Hnd x s Hin. destruct (pass2_values _ _ _ _ _ _ E2 Hnd x s Hin) as [val [Hv [Hl [Hs _]]]].
+    exists val. repeat split; auto. rewrite Hexo; [exact Hs|]. apply (in_map fst) in Hin. exact Hin.
+  - intros x s Hin. exact (pass2_all_good _ _ _ _ _ _ E2 x s Hin).
+  - intros x Hin Hbad. specialize (P1a x Hin). now rewrite Hbad in P1a.
+  - intros x Hin Hnexo.
+    destruct (pass2_frame _ _ _ _ _ _ E2 x Hnexo) as [F1 F2].
+    specialize (P1a x Hin).
+    destruct (lookup x (p_ics p)) as [[c|]|] eqn:Eic; [|tauto|].
+    + destruct P1a as [Hv1 Hz1].
+      assert (Hh2 : has x z2 = true) by (apply has_true_iff; rewrite F2; eauto).
+      assert (Hh3 : has x z3 = true) by (apply has_true_iff; rewrite (P3a x Hh2); now apply has_true_iff).
+      exists c. split; [|intros c' Hc'; congruence].
+      destruct (P4b x) as [->|[Hf _]]; [|congruence].
+      destruct (P3b x) as [->|[Hf _]]; [congruence|congruence].
+    + destruct P1a as [Hv1 _].
+      destruct (P4b x) as [E4x|[_ [_ [v Hv]]]].
+      * destruct (P3b x) as [E3x|[_ [_ [v Hv]]]].
+        -- exists 0%float. split; [congruence|discriminate].
+        -- exists v. split; [congruence|discriminate].
+      * exists v. split; [exact Hv|discriminate].
+Qed.
+
+Lemma init_facts_ok p ts0 exo' :
+  init p = Ok (ts0, exo') -> init_facts p ts0 exo' /\ all_finite_ts ts0 = true.
+Proof.
+  unfold init. destruct (init_passes p) as [[ts e']|] eqn:E; [|discriminate].
+  destruct (all_finite_ts ts) eqn:Ef; intros H; inversion H; subst.
+  split; [now apply init_passes_facts|exact Ef].
+Qed.
+
+(** a malformed specification is refused *)
+Lemma init_rejects p :
+  (exists x, In x (varlist p) /\ lookup x (p_ics p) = Some ICBad) \/
+  (exists x s, In (x, s) (p_exo p) /\
+     match exo_values (p_maxtime p) s with
+     | Ok val => List.length val < S (p_maxtime p)
+     | Err _ => True
+     end) ->
+  init p = Err ValueError.
+Proof.
+  intros Hbad. destruct (init p) as [[ts0 exo']|e] eqn:E.
+  - exfalso. destruct (init_facts_ok _ _ _ E) as [F _].
+    destruct Hbad as [[x [Hin Hb]]|[x [s [Hin Hb]]]].
+    + exact (if_ic_good _ _ _ F x Hin Hb).
+    + assert (Hin' : In (x, s) exo').
+      { destruct (if_exo _ _ _ F) as [[_ ->]|[_ ->]]; [exact Hin|apply in_or_app; now left]. }
+      destruct (if_exo_good _ _ _ F x s Hin') as [val [Hv Hl]]. rewrite Hv in Hb. lia.
+  - now rewrite (init_err _ _ E).
+Qed.
